@@ -552,7 +552,9 @@ def gen_known_malformed(rng, n):
             toks[1] = rng.choice(kw)
         else:
             # a keyword where a member name is expected
-            idx = [j for j, t in enumerate(toks) if j > toks.index("{") and j + 1 < len(toks) and toks[j + 1] in ("(", ";", "=") and re.fullmatch(r"[A-Za-z_]\w*", t)]
+            # (not a value: `= true ;`, `= Foo.BAR ;` are followed by `;` too, and replacing a value by `false` is well-formed)
+            idx = [j for j, t in enumerate(toks) if j > toks.index("{") and j + 1 < len(toks) and toks[j + 1] in ("(", ";", "=")
+                   and toks[j - 1] not in ("=", ".") and re.fullmatch(r"[A-Za-z_]\w*", t)]
             if not idx:
                 continue
             toks[rng.choice(idx)] = rng.choice(kw)
